@@ -415,6 +415,26 @@ theorem codeSort_correct {entrySize bufferSize totalMemory : Nat} {cfg : Cfg}
   obtain ⟨out, p, ret, ho⟩ := codeSort_ok hcfg lt neverCombine pick lazyMem blocks
   exact ⟨out, p, ret, ho, codeSort_sorted_perm h pick cfg lazyMem blocks out p ret ho⟩
 
+/-- **merge_ret_sufficient** — the contract `lmplz` relies on (lm/builder/pipeline.cc:69-73 and
+107-123: `merge_using = sort.Merge(lazy); …; sort.Output(chain, merge_using)` and
+`assert(for_merge >= laziness.back())`): the value returned by `Sort::Merge(lazy_memory)` is at
+most `lazy_memory`; calling `Merge` again with it (as `Output` does) makes no further pass and
+returns the same value; and the lazy merge given exactly that much memory does not abort and
+yields the final merge of the remaining runs. -/
+theorem merge_ret_sufficient {entrySize bufferSize totalMemory : Nat} {cfg : Cfg}
+    (hcfg : mkCfg entrySize bufferSize totalMemory = .ok cfg)
+    (lt : α → α → Bool) (comb) (pick) (lazyMem : Nat) (runs : List (List α)) (m : MergeResult α)
+    (h : codeMerge lt comb pick cfg lazyMem runs = .ok m) :
+    m.ret ≤ lazyMem ∧
+    codeMerge lt comb pick cfg m.ret m.runs = .ok ⟨m.runs, 0, m.ret⟩ ∧
+    codeFinal lt comb pick cfg m.ret m.runs = .ok (finalMerge lt comb pick m.runs) := by
+  have L := mkCfg_legal hcfg
+  obtain ⟨hret, hcond⟩ := codeMerge_shape lt comb pick cfg lazyMem runs m h
+  refine ⟨by rw [hret]; exact mergeRet_le L lazyMem m.runs hcond, ?_, ?_⟩
+  · rw [hret]; exact codeMerge_idem L lt comb pick m.runs
+  · obtain ⟨out, ho⟩ := codeFinal_ok L lt comb pick m.ret m.runs (by rw [hret]; exact mergeRet_cond L m.runs)
+    rw [ho, codeFinal_refines lt comb pick cfg m.ret m.runs out ho]
+
 /-- the fixed-size-record sort used per block (`SizedSort`, modelled by a stable merge sort) -/
 theorem sizedSort_perm_sorted {lt : α → α → Bool} (h : StrictWeak lt) (b : List α) :
     (blockSort lt b).Pairwise (fun a b => lt b a = false) ∧ blockSort lt b ~ b :=
